@@ -109,6 +109,8 @@ def build():
     body = fn_body(inp, "scan_name", after="impl Scanner for EntryScanner")
     m = one(r"if\s+write\s*>\s*(\d+)\s*\{\s*return\s+Err\(EntryError::bad_name\(\)\)", body, "scan_name length check")
     defs.append(("name_write_max", "N", "%d%%N" % num(m.group(1))))
+    one(r"self\.zonefile\.buf\.require_token\(\)\?;\s*if\s+self\.zonefile\.buf\.skip_at_token\(\)\?\s*\{\s*return\s+RelativeName::empty_bytes\(\)\s*\.chain\(self\.zonefile\.origin\(\)\?\)", body, "scan_name free standing @")
+    defs.append(("scan_name_at_is_origin", "bool", "true"))
     body = fn_body(inp, "_scan_entry", after="impl<'a> EntryScanner")
     one(r"peek_symbol\(\)\s*==\s*Some\(Symbol::Char\('\$'\)\)", body, "control entry test")
     defs.append(("ch_dollar", "N", "36%N"))
@@ -165,8 +167,9 @@ def build():
     # ---- unsigned scanner
     body = scan[scan.index("macro_rules! impl_scan_unsigned"):scan.index("impl_scan_unsigned!(u8)")]
     one(r"res\s*=\s*res\.checked_mul\(10\)\.ok_or_else", body, "unsigned scan checked_mul")
-    one(r"res\s*\+=\s*ch\.into_digit\(10\)", body, "unsigned scan unchecked add")
-    defs.append(("uint_scan_add_unchecked", "bool", "true"))
+    one(r"let\s+digit\s*=\s*ch\.into_digit\(10\)", body, "unsigned scan digit")
+    one(r"res\s*=\s*res\.checked_add\(digit\)\.ok_or_else", body, "unsigned scan checked_add")
+    defs.append(("uint_scan_add_checked", "bool", "true"))
     # ---- mnemonic tables
     def mnemonics(path, what):
         src = strip_comments(read(path))
